@@ -18,6 +18,7 @@ const NARROW: &[(char, i64)] = &[
 const WIDE: &[(char, i64)] = &[
     ('\u{4e16}', 1000), ('\u{754c}', 1001), ('\u{8a9e}', 1002), ('\u{6f22}', 1003), ('\u{5b57}', 1004),
     ('\u{1f600}', 1005),
+    ('\u{4e00}', 1006), ('\u{4e8c}', 1007), ('\u{4e09}', 1008), ('\u{56db}', 1009), ('\u{4e94}', 1010), ('\u{516d}', 1011),
 ];
 pub const SGR: &str = "\x1b[1m";
 
